@@ -1674,7 +1674,64 @@ def np_take_along_axis(arr, indices, axis):
     return SArr((ix.shape[0], a.shape[1]), lambda idx: af((A.norm_index(xf((idx[0], 0)), n0, force=True), idx[1])), a.dtype)
 
 
+class BlockStructure:
+    """the chunking of a dask array along axis 0: `nb` >= 1 blocks, block i = rows [b(i), b(i+1)) with b(0) = 0,
+    b(nb) = number of rows, b strictly increasing -- an arbitrary partition (what rechunk('auto') produces depends on
+    dask's configuration and the data size).  The other axes are taken as one block each only when the caller asks
+    for numblocks[0] / blocks[i] (anything else is unsupported)."""
+    _pyvc_native = True
+
+    def __init__(self, interp, a):
+        self.a, self.interp = a, interp
+        self.nb = V.fresh("numblocks", "int")
+        self.b = z3.Function(V.fresh_name("block_start"), z3.IntSort(), z3.IntSort())
+        n = a.shape[0]
+        p = interp.path
+        k = z3.Int(V.fresh_name("k"))
+        p.assume(V.compare(">=", self.nb, 1))
+        p.assume(V.compare("<=", self.nb, n))
+        p.assume(Sym(self.b(0) == 0))
+        p.assume(Sym(self.b(self.nb.t) == V.lift(n)))
+        p.assume(Sym(z3.ForAll([k], z3.Implies(z3.And(k >= 0, k < self.nb.t), self.b(k) < self.b(k + 1)))))
+
+    def __getitem__(self, i):
+        if isinstance(i, tuple):
+            if len(i) != 1:
+                raise Unsupported("blocks[...] with more than the first axis")
+            i = i[0]
+        if isinstance(i, slice):
+            raise Unsupported("blocks[slice]")
+        a = self.a
+        f = a.snapshot()
+        lo, hi = Sym(self.b(V.lift(i))), Sym(self.b(V.lift(i) + 1))
+        return SArr((V.arith("-", hi, lo),) + tuple(a.shape[1:]),
+                    lambda idx: f((V.arith("+", lo, idx[0]),) + tuple(idx[1:])), a.dtype)
+
+
+def _block_structure(interp, a):
+    bs = getattr(a, "_blocks", None)
+    if bs is None:
+        bs = a._blocks = BlockStructure(interp, a)
+    return bs
+
+
+class _NumBlocks:
+    _pyvc_native = True
+
+    def __init__(self, bs):
+        self.bs = bs
+
+    def __getitem__(self, ax):
+        if not (isinstance(ax, int) and ax == 0):
+            raise Unsupported("numblocks of an axis other than the first")
+        return self.bs.nb
+
+
 def _getattr_hook(interp, obj, name):
+    if isinstance(obj, SArr) and name == "numblocks":
+        return _NumBlocks(_block_structure(interp, obj))
+    if isinstance(obj, SArr) and name == "blocks":
+        return _block_structure(interp, obj)
     if isinstance(obj, SArr):
         return _arr_method(obj, name)
     if isinstance(obj, MaskedSel):
@@ -1798,6 +1855,8 @@ def _getattr_hook(interp, obj, name):
     if isinstance(obj, slice):
         if name in ("start", "stop", "step"):
             return getattr(obj, name)
+        if name == "indices":
+            return lambda n: _slice_indices(obj, n)
     if isinstance(obj, X.GenV) and name == "__next__":
         return lambda: B["next"](interp, obj)
     if isinstance(obj, (X.Closure, X.RepoFunc)):
@@ -1820,6 +1879,25 @@ def _getattr_hook(interp, obj, name):
     if isinstance(obj, type) and name == "__name__":
         return obj.__name__
     return NotImplemented
+
+
+def _slice_indices(sl, n):
+    """slice.indices(n) for unit (or absent) step: Python's clamping rule, symbolic bounds allowed"""
+    if not (sl.step is None or (isinstance(sl.step, int) and sl.step == 1)):
+        if any(is_sym(x) for x in (sl.start, sl.stop, sl.step, n)):
+            raise Unsupported("slice.indices with a symbolic non-unit step")
+        return sl.indices(n)
+    if not any(is_sym(x) for x in (sl.start, sl.stop, n)):
+        return sl.indices(n)
+
+    def clamp(v, default):
+        if v is None:
+            return default
+        v = X._unfrac(v)
+        neg = V.compare("<", v, 0)
+        w = V.ite(neg, V.smax(V.arith("+", v, n), 0), V.smin(v, n))
+        return w
+    return (clamp(sl.start, 0), clamp(sl.stop, n), 1)
 
 
 REG["__getattr__"] = _getattr_hook
